@@ -87,3 +87,24 @@ Proof.
   split; [apply nonposb_sound; vm_compute; reflexivity|].
   vm_compute. repeat split; reflexivity.
 Qed.
+
+(* ---- tie to the Go source by translation (gen/SrcGen.v, regenerated on every run) ---- *)
+From Bio.gen Require SrcGen.
+From Bio.Proofs Require SrcGenProofs.
+
+(* decideOnStep of the model is, for all arguments, the function translated from
+   align/global.go; the step and gap constants are those of align/align.go. *)
+Theorem C08_decide_is_source : forall mch del ins,
+  let c := Bio.Model.Align.decide mch del ins in
+  let b := SrcGen.src_align_decideOnStep mch del ins in
+  fst c = SrcGen.src_align_block_score b /\ Bio.Model.Align.step_code (snd c) = SrcGen.src_align_block_step b.
+Proof. exact SrcGenProofs.decide_is_source. Qed.
+Print Assumptions C08_decide_is_source.
+
+Theorem C08_step_constants_are_source :
+  Bio.Model.Align.step_code Bio.Model.Align.SMatch = SrcGen.k_align_Match
+  /\ Bio.Model.Align.step_code Bio.Model.Align.SDel = SrcGen.k_align_Deletion
+  /\ Bio.Model.Align.step_code Bio.Model.Align.SIns = SrcGen.k_align_Insertion
+  /\ Z.of_N Bio.Model.Align.Gap = SrcGen.k_align_Gap.
+Proof. exact SrcGenProofs.step_constants. Qed.
+Print Assumptions C08_step_constants_are_source.
